@@ -103,7 +103,10 @@ class Agg:
             if not (rep and isinstance(rep, list) and rep):
                 # a crash is an observation (and a mismatch with any expected status); anything else means the recipe did not run
                 crashed = rc == 101 or "panicked" in (err or "")
-                out.append({"clause": clause, "expected": exp, "observed": "PANIC (exit %s)" % rc if crashed else None, "exit": rc, "stderr": (err or "")[-200:]})
+                # no report and no crash: the run ended with an evaluation / parse error. On the unchanged tree every case of every
+                # recipe yields a report (tools/selftest_replays.py fails otherwise), so an error is an observation too
+                out.append({"clause": clause, "expected": exp, "observed": "PANIC (exit %s)" % rc if crashed else "ERROR (exit %s)" % rc, "exit": rc,
+                            "stderr": (err or "")[-200:]})
                 continue
             r = rep[0]
             got = "PASS" if "t" in r.get("compliant", []) else ("SKIP" if "t" in r.get("not_applicable", []) else "FAIL")
